@@ -926,20 +926,18 @@ func (f *Field) SetBit(rowID, colID uint64, t *time.Time) (changed bool, err err
 func (f *Field) ClearBit(rowID, colID uint64) (changed bool, err error) {
 	viewName := viewStandard
 
-	// Retrieve view. Exit if it doesn't exist.
-	view, present := f.viewMap[viewName]
-	if !present {
-		return changed, errors.Wrap(err, "clearing missing view")
-
-	}
-
-	// Clear non-time bit.
-	if v, err := view.clearBit(rowID, colID); err != nil {
-		return changed, errors.Wrap(err, "clearing on view")
-	} else if v {
-		changed = v
-	}
-	if len(f.viewMap) == 1 { // assuming no time views
+	// Clear non-time bit. A time field created with noStandardView has no
+	// standard view; its time views below must still be cleared.
+	if view, present := f.viewMap[viewName]; present {
+		if v, err := view.clearBit(rowID, colID); err != nil {
+			return changed, errors.Wrap(err, "clearing on view")
+		} else if v {
+			changed = v
+		}
+		if len(f.viewMap) == 1 { // assuming no time views
+			return changed, nil
+		}
+	} else if len(f.viewMap) == 0 {
 		return changed, nil
 	}
 	lastViewNameSize := 0
@@ -990,6 +988,9 @@ func (f *Field) allTimeViewsSortedByQuantum() (me []*view) {
 		}
 	}
 	me = me[:i]
+	if len(me) == 0 {
+		return me
+	}
 	year := strings.Index(me[0].name, "_") + 4
 	month := year + 2
 	day := month + 2
